@@ -446,4 +446,39 @@ theorem takeWhile_noDelim {a rest : Str} (ha : ∀ x ∈ a, isDelim x = false)
     · simp [hc]
   · intro c m; simp [ha c m]
 
+/-! ### absolute controls -/
+
+theorem nodup_getElem_ne {l : List Str} (h : l.Nodup) {i j : Nat} (hi : i < l.length) (hj : j < l.length)
+    (hij : j < i) : l[j] ≠ l[i] :=
+  (List.pairwise_iff_getElem.1 h) j i hj hi hij
+
+theorem absolute_ne_star {c : Str} (h : isAbsoluteControl c = true) : c ≠ [] ∧ c ≠ [42] := by
+  have h1 : pfxRTSP = 114 :: [116, 115, 112, 58, 47, 47] := by decide
+  have h2 : pfxRTSPS = 114 :: [116, 115, 112, 115, 58, 47, 47] := by decide
+  unfold isAbsoluteControl hasPrefix at h
+  rw [h1, h2] at h
+  cases c with
+  | nil => simp [List.isPrefixOf] at h
+  | cons x r =>
+    refine ⟨by simp, ?_⟩
+    intro e
+    simp only [List.cons.injEq] at e
+    obtain ⟨rfl, rfl⟩ := e
+    simp [List.isPrefixOf] at h
+
+theorem isAbsolute_toStr {v : Url} (h : WF v) : isAbsoluteControl v.toStr = true := by
+  have h1 : pfxRTSP = schemeRTSP ++ [58, 47, 47] := by decide
+  have h2 : pfxRTSPS = schemeRTSPS ++ [58, 47, 47] := by decide
+  rw [toStr_wf h]
+  unfold isAbsoluteControl hasPrefix assemble
+  rcases h.scheme with e | e
+  · have : pfxRTSP.isPrefixOf (v.scheme ++ 58 :: 47 :: 47 :: (authText v.user v.host ++ (v.epath ++ queryText v.forceQuery v.rawQuery))) = true := by
+      rw [h1, e, List.isPrefixOf_iff_prefix]
+      exact ⟨authText v.user v.host ++ (v.epath ++ queryText v.forceQuery v.rawQuery), by simp⟩
+    simp [this]
+  · have : pfxRTSPS.isPrefixOf (v.scheme ++ 58 :: 47 :: 47 :: (authText v.user v.host ++ (v.epath ++ queryText v.forceQuery v.rawQuery))) = true := by
+      rw [h2, e, List.isPrefixOf_iff_prefix]
+      exact ⟨authText v.user v.host ++ (v.epath ++ queryText v.forceQuery v.rawQuery), by simp⟩
+    simp [this]
+
 end Rtsp.Url
